@@ -88,7 +88,8 @@ func (l *Lexer) Next() bool {
 	return false
 }
 
-const EOF = rune(0)
+// EOF marks the end of input; it must not be a rune the input can contain.
+const EOF = rune(-1)
 
 func (l *Lexer) nextRune() (rune, int, error) {
 	if l.to >= len(l.input) {
